@@ -1156,6 +1156,13 @@ def install(eng):
     def _isclose(eng, a, b, atol=Fraction(1, 10**8), rtol=Fraction(1, 10**5)):
         return M.elementwise(eng, lambda x, y: T.compare("le", T.absv(T.sub(x, y)), T.add(atol, T.mul(rtol, T.absv(y)))), a, b, dtype="bool")
 
+    @model("numpy.allclose")
+    def _allclose(eng, a, b, rtol=Fraction(1, 10**5), atol=Fraction(1, 10**8), equal_nan=False):
+        c = _isclose(eng, a, b, atol=atol, rtol=rtol)
+        if isinstance(M.unwrap(c), I.Arr):
+            return M.reduce_axis(eng, "all", M.unwrap(c), None)
+        return c
+
     @model("numpy.shape")
     def _np_shape(eng, a):
         a = M.unwrap(a)
@@ -1244,7 +1251,8 @@ def install(eng):
                "scipy.special.roots_chebyu", "scipy.special.roots_genlaguerre", "scipy.linalg.solve", "scipy.integrate.solve_ivp",
                "scipy.integrate.solve_bvp", "sympy.bell", "scipy.special.sph_harm_y", "scipy.special.sph_harm_y_all", "scipy.optimize.nnls",
                "scipy.interpolate.RegularGridInterpolator", "json.load", "numpy.savez", "numpy.random.rand", "itertools.product", "itertools.islice",
-               "scipy.constants.value", "numpy.delete", "numpy.geomspace", "numpy.finfo"]:
+               "scipy.constants.value", "numpy.delete", "numpy.geomspace", "numpy.finfo", "sympy.symbols",
+               "sympy.functions.combinatorial.numbers.bell"]:
         reg[nm] = I.Model(nm, external(nm))
 
     eng.models.update(reg)
